@@ -68,7 +68,7 @@ def networks():
     return _CACHE['nets']
 
 
-def snap(x, maxden=96, tol=1e-9):
+def snap(x, maxden=4000, tol=1e-9):
     f = Fraction(float(x)).limit_denominator(maxden)
     if abs(float(f) - float(x)) > tol:
         raise ValueError('coordinate %r is not a small rational' % (x,))
